@@ -11,6 +11,7 @@ atomic operation announced at the point, then thread-local code up to the next p
 * `inc o`  — `atomicInc(&rc)`: one more handle, owned by the executing thread
 * `dec o`  — `atomicDec(&rc)`: gives one handle up; when the result is 0 the *same thread* must
              release the storage: its next step is the implicit `free o` (`pending`)
+* `use o`  — the thread reads the object's payload through one of its handles (no hook point of its own)
 * `add c d` — `AtomicCount` increment and decrement operators
 * `lock m` / `unlock m`, `load x` / `store x d` — `Atomic<T>` operators: `Lock _(mutex); x = x + d`
 
@@ -22,6 +23,7 @@ namespace AslModel.Rc
 inductive Step where
   | inc (o : Nat)
   | dec (o : Nat)
+  | use (o : Nat)
   | add (c : Nat) (d : Int)
   | lock (m : Nat)
   | unlock (m : Nat)
@@ -37,8 +39,8 @@ structure Thr where
 deriving Repr, DecidableEq, Inhabited
 
 inductive Bad where
-  | misuse (t : Nat) (o : Nat)        -- inc/dec of an object the thread holds no handle to
-  | touchDead (t : Nat) (o : Nat)     -- inc/dec on released storage
+  | misuse (t : Nat) (o : Nat)        -- inc/dec/use of an object the thread holds no handle to
+  | touchDead (t : Nat) (o : Nat)     -- inc/dec/use on released storage
   | doubleFree (t : Nat) (o : Nat)
 deriving Repr, DecidableEq
 
@@ -100,6 +102,10 @@ def step (c : Cfg) (t : Nat) : Cfg :=
           { c with rc := upd c.rc o (· - 1),
                    thrs := c.thrs.set t { th with prog := rest, held := th.held.erase o,
                                                   pending := if r = 0 then some o else none } }
+      | Step.use o :: rest =>
+        if !(th.held.contains o) then { c with bad := some (Bad.misuse t o) }
+        else if !(c.alive.getD o false) then { c with bad := some (Bad.touchDead t o) }
+        else { c with thrs := c.thrs.set t { th with prog := rest } }
       | Step.add k d :: rest =>
         { c with ctr := upd c.ctr k (· + d), thrs := c.thrs.set t { th with prog := rest } }
       | Step.lock m :: rest =>
@@ -126,6 +132,7 @@ def wfProg : List Nat → List Step → Bool
   | _, [] => true
   | held, Step.inc o :: rest => held.contains o && wfProg (o :: held) rest
   | held, Step.dec o :: rest => held.contains o && wfProg (held.erase o) rest
+  | held, Step.use o :: rest => held.contains o && wfProg held rest
   | held, _ :: rest => wfProg held rest
 
 def wfThr (th : Thr) : Bool := wfProg th.held th.prog
